@@ -212,21 +212,40 @@ def rule_y4(chk: Check, ix: Index):
     for q, f in sorted(ix.funcs.items()):
         if f.cls != "Parser" or not (f.node.name.startswith("raise_") or f.node.name == "expect_forced"):
             continue
+        defs: dict[str, list[ast.expr]] = {}
         for n in own_nodes(f.node):
-            if isinstance(n, ast.Assign) and len(n.targets) == 1 and isinstance(n.targets[0], ast.Name) \
-                    and n.targets[0].id in ("start", "end"):
-                which = n.targets[0].id
-                chk.count("Y4-coherent-span")
-                ps = _pos_source(n.value)
-                key = f"{q}:{norm_stmt(n)}"
-                if ps is None:
-                    chk.undecided("Y4-coherent-span", key, f"{f.rel}:{n.lineno}", "position source not recognised")
+            if isinstance(n, ast.Assign) and len(n.targets) == 1 and isinstance(n.targets[0], ast.Name):
+                defs.setdefault(n.targets[0].id, []).append(n.value)
+
+        def leaves(e: ast.expr, depth: int = 0) -> list[ast.expr]:
+            if isinstance(e, ast.IfExp):
+                return leaves(e.body, depth) + leaves(e.orelse, depth)
+            if isinstance(e, ast.Name) and e.id in defs and depth < 4:
+                return [x for v in defs[e.id] for x in leaves(v, depth + 1)]
+            return [e]
+        for n in own_nodes(f.node):
+            if not (isinstance(n, ast.Call) and isinstance(n.func, ast.Attribute) and n.func.attr in ("_build_syntax_error", "make_syntax_error")
+                    and norm_stmt(n.func.value) == "self"):
+                continue
+            bound = {k.arg: k.value for k in n.keywords if k.arg}
+            for i, which in ((1, "start"), (2, "end")):
+                e = n.args[i] if len(n.args) > i else bound.get(which)
+                if e is None or (isinstance(e, ast.Constant) and e.value is None):
                     continue
-                obj, kind = ps
-                good = kind == which or (which == "end" and kind == "start")  # `…starting_from` ends at the next token's start
-                chk.require(good and not kind.startswith("mixed"), "Y4-coherent-span", key, f"{f.rel}:{n.lineno}",
-                            f"`{which}` is taken from {obj} ({kind}); line and column must come from the same object and a "
-                            f"start must be a start position")
+                for leaf in leaves(e):
+                    if isinstance(leaf, ast.Constant) and leaf.value is None:
+                        continue
+                    chk.count("Y4-coherent-span")
+                    ps = _pos_source(leaf)
+                    key = f"{q}:{which} = {norm_stmt(leaf)}"
+                    if ps is None:
+                        chk.undecided("Y4-coherent-span", key, f"{f.rel}:{n.lineno}", "position source not recognised")
+                        continue
+                    obj, kind = ps
+                    good = kind == which or (which == "end" and kind == "start")  # `…starting_from` ends at the next token's start
+                    chk.require(good and not kind.startswith("mixed"), "Y4-coherent-span", key, f"{f.rel}:{n.lineno}",
+                                f"`{which}` is taken from {obj} ({kind}); line and column must come from the same object and a "
+                                f"start must be a start position")
     chk.floor("Y4-coherent-span", 8)
 
 
